@@ -452,7 +452,12 @@ class Case final : public sim::CaseBase {
               ends = true;
               expect_result = want_obs;  // rethrown and escaping: becomes the coroutine's own failure
             }
-            exec_known = false;
+            // A future hands its own executor to the coroutine it resumes, so the coroutine's executor is no longer the
+            // one named last. A lazy *coroutine* task is different: it is started by the awaiting coroutine, takes that
+            // coroutine's executor, and hands the same one back when it completes.
+            if (!(op.kind == kAwaitTask && op.task_is_coroutine)) {
+              exec_known = false;
+            }
           } break;
           case kAwaitMany:
             exec_known = false;
